@@ -23,21 +23,21 @@ REPLAY = 'props.C01:replay'
 
 QUICK = dict(
     stack=dict(ex_len=1, walk_len=3, walks=60, body_len=1, inputs=2, budget=500),
-    control=dict(ex_len=1, walk_len=3, walks=40, body_len=1, inputs=3, budget=1100),
+    control=dict(ex_len=1, walk_len=3, walks=40, body_len=1, inputs=3, budget=1000),
     lambdas=dict(ex_len=1, walk_len=3, walks=40, body_len=1, inputs=3, budget=900),
     structures=dict(ex_len=1, walk_len=3, walks=40, body_len=1, inputs=3, budget=1000),
-    strings=dict(ex_len=1, walk_len=3, walks=40, body_len=1, inputs=3, budget=800),
-    arithmetic=dict(ex_len=1, walk_len=3, walks=30, body_len=1, inputs=3, budget=800),
+    strings=dict(ex_len=1, walk_len=3, walks=40, body_len=1, inputs=3, budget=700),
+    arithmetic=dict(ex_len=1, walk_len=3, walks=30, body_len=1, inputs=3, budget=900),
     environment=dict(ex_len=1, walk_len=3, walks=40, body_len=1, inputs=2, budget=400),
 )
 THOROUGH = dict(
-    stack=dict(ex_len=2, walk_len=5, walks=1500, body_len=2, inputs=2, budget=40000),
-    control=dict(ex_len=1, walk_len=5, walks=2500, body_len=2, inputs=4, budget=60000),
-    lambdas=dict(ex_len=1, walk_len=5, walks=2500, body_len=2, inputs=4, budget=45000),
-    structures=dict(ex_len=2, walk_len=5, walks=1500, body_len=2, inputs=4, budget=60000),
-    strings=dict(ex_len=2, walk_len=5, walks=2000, body_len=2, inputs=5, budget=45000),
-    arithmetic=dict(ex_len=2, walk_len=5, walks=1000, body_len=2, inputs=6, budget=40000),
-    environment=dict(ex_len=2, walk_len=4, walks=400, body_len=1, inputs=3, budget=10000),
+    stack=dict(ex_len=2, walk_len=5, walks=800, body_len=2, inputs=2, budget=20000),
+    control=dict(ex_len=1, walk_len=5, walks=600, body_len=2, inputs=4, budget=24000),
+    lambdas=dict(ex_len=1, walk_len=5, walks=600, body_len=2, inputs=4, budget=18000),
+    structures=dict(ex_len=2, walk_len=5, walks=500, body_len=2, inputs=4, budget=24000),
+    strings=dict(ex_len=2, walk_len=5, walks=600, body_len=2, inputs=5, budget=18000),
+    arithmetic=dict(ex_len=2, walk_len=5, walks=300, body_len=2, inputs=6, budget=20000),
+    environment=dict(ex_len=2, walk_len=4, walks=200, body_len=1, inputs=3, budget=6000),
 )
 
 
@@ -81,15 +81,13 @@ def record_functions(ck):
 
 
 def run_engine(ck, themes, cfg, prop, replay_fn):
-    """shared by C01 and C02: build cases, evaluate, report the findings of `prop`"""
+    """shared by C01 and C02: generate + evaluate the cases in worker processes, report the findings of `prop`"""
     from bounded import C01_harness as H
-    cases, stats = H.build_cases(themes, cfg, ck.seed)
+    tasks = H.make_tasks(themes, cfg, ck.seed)
+    results, stats = H.run_tasks(tasks)
     ck.extra['generation'] = stats
-    results = H.run_cases(cases)
-    by_id = {c['id']: c for c in cases}
     n_no_oracle = n_timeout = n_contract = 0
     for r in results:
-        c = by_id[r['id']]
         if r['status'] == 'no-oracle':
             n_no_oracle += 1
             continue
@@ -97,17 +95,13 @@ def run_engine(ck, themes, cfg, prop, replay_fn):
             n_timeout += 1
             continue
         n_contract += 1 if r.get('contract_run') else 0
-        sample = None
-        if c['n'] == 2 and c['id'] % 97 == 0:
-            sample = dict(theme=c['theme'], code=c['code'], stack_types=[H.E.tstr(t) for t in c['S']],
-                          stack=[H.R.data_to_micheline_safe(t, v) for t, v in zip(c['S'], c['V'])])
-        ck.evaluate(H.class_key(c), sample=sample)
+        ck.evaluate(r['cls'], sample=r.get('sample'))
     for r in results:
         for f in r['findings']:
             if f['prop'] != prop:
                 continue
             ck.violation(f['oid'], f['message'], case=f['case'], replay=replay_fn, wclass=f['wclass'])
-    ck.note(f'{len(cases)} program x input x environment cases; {n_no_oracle} without oracle (reference fuel exhausted / unsupported), '
+    ck.note(f'{len(results)} program x input x environment cases; {n_no_oracle} without oracle (reference fuel exhausted / unsupported), '
             f'{n_contract} additionally run through Interpreter.run_code as a contract')
     if n_timeout:
         ck.obligation(f'{prop}::terminates', 'undecided', kind='S', backend='native',
